@@ -34,8 +34,10 @@ VARIABLES tid, l,
   krun,    \* [Who -> [key, n]]  masking key of the last masked frame and how many consecutive frames carried it
   poison,  \* [Who -> BOOLEAN]  deviation bookkeeping (see Dev below): a compressed send of this sender was refused
   overd,   \* [Who -> BOOLEAN]  this sender sent a compressed message larger than the peer's decompression limit
-  failed1009  \* [Who -> BOOLEAN]  the peer of this sender failed the connection with 1009 because of such a message
-tvars == <<tid, l, opt, acc, wfs, wdone, wsum, dl, krun, poison, overd, failed1009>>
+  failed1009, \* [Who -> BOOLEAN]  the peer of this sender failed the connection with 1009 because of such a message
+  wnf,     \* [Who -> Nat]  data frames written so far for the message being framed
+  wcounts  \* [Who -> Seq(Nat)]  number of data frames each completely framed message was written in
+tvars == <<tid, l, opt, acc, wfs, wdone, wsum, dl, krun, poison, overd, failed1009, wnf, wcounts>>
 
 (***************************************************************************)
 (* Deviation actions for recorded (not repaired) defects, DESIGN 3.5.      *)
@@ -57,11 +59,12 @@ TInit == /\ tid \in 1..N /\ l = 1
          /\ wdone = [w \in Who |-> 0] /\ wsum = [w \in Who |-> 0] /\ dl = [w \in Who |-> 0]
          /\ krun = [w \in Who |-> [key |-> <<>>, n |-> 0, bad |-> FALSE]]
          /\ poison = [w \in Who |-> FALSE] /\ overd = [w \in Who |-> FALSE] /\ failed1009 = [w \in Who |-> FALSE]
+         /\ wnf = [w \in Who |-> 0] /\ wcounts = [w \in Who |-> <<>>]
 
 TOpen == /\ IsEvent("open") /\ l = 1
          /\ opt' = [compress |-> Ev.compress, limit |-> [w \in Who |-> Ev.limit[w]], mask |-> [w \in Who |-> Ev.mask[w]],
                     dlimit |-> [w \in Who |-> Ev.dlimit[w]]]   \* decompression size limit of receiver w (0 = none)
-         /\ UNCHANGED <<acc, wfs, wdone, wsum, dl, krun, poison, overd, failed1009>>
+         /\ UNCHANGED <<acc, wfs, wdone, wsum, dl, krun, poison, overd, failed1009, wnf, wcounts>>
 
 \* ---- send API: accepted unless over the sender's message limit (sendMessage only); nothing else may be raised
 TSend ==
@@ -79,9 +82,9 @@ TSend ==
         /\ poison' = IF Ev.exc # "" /\ cmpd THEN [poison EXCEPT ![w] = TRUE] ELSE poison
         /\ overd' = IF Ev.exc = "" /\ cmpd /\ opt.dlimit[Other(w)] > 0 /\ Ev.len > opt.dlimit[Other(w)]
                     THEN [overd EXCEPT ![w] = TRUE] ELSE overd
-  /\ UNCHANGED <<opt, wfs, wdone, wsum, dl, krun, failed1009>>
+  /\ UNCHANGED <<opt, wfs, wdone, wsum, dl, krun, failed1009, wnf, wcounts>>
 
-\* ---- one written frame: st = [fs, done, sum]
+\* ---- one written frame: st = [fs, done, sum, nf, counts]  (nf: data frames of the message being framed; counts: per completed message)
 WriteFrame(w, st, f) ==
   LET h == f.h
       ctl == Opcode(h) >= 8
@@ -107,8 +110,8 @@ WriteFrame(w, st, f) ==
              THEN IF ~cmpd /\ sum # m.len THEN [st EXCEPT !.fs = Bad]    \* fragments must add up to the message
                   ELSE IF opt.limit[w] > 0 /\ m.api = "msg" /\ sum > opt.limit[w]
                   THEN [st EXCEPT !.fs = Bad]                            \* an accepted message never exceeds the limit on the wire
-                  ELSE [fs |-> nfs, done |-> st.done + 1, sum |-> 0]
-             ELSE [fs |-> nfs, done |-> st.done, sum |-> sum]
+                  ELSE [st EXCEPT !.fs = nfs, !.done = st.done + 1, !.sum = 0, !.nf = 0, !.counts = Append(@, st.nf + 1)]
+             ELSE [st EXCEPT !.fs = nfs, !.sum = sum, !.nf = st.nf + 1]
 
 \* "masked with a per-frame key": a fresh 32-bit key per frame.  Two equal consecutive keys happen by chance once in
 \* 2^32 frames; three in a row (2^-64) is taken as key reuse.
@@ -122,15 +125,25 @@ TWire ==
   /\ krun' = [krun EXCEPT ![Ev.who] = FoldLeft(KeyRun, @, Ev.frames)]
   /\ ~krun'[Ev.who].bad
   /\ LET w == Ev.who
-         st == FoldLeft(LAMBDA s, f : WriteFrame(w, s, f), [fs |-> wfs[w], done |-> wdone[w], sum |-> wsum[w]], Ev.frames)
+         st == FoldLeft(LAMBDA s, f : WriteFrame(w, s, f),
+                        [fs |-> wfs[w], done |-> wdone[w], sum |-> wsum[w], nf |-> wnf[w], counts |-> wcounts[w]], Ev.frames)
      IN /\ st.fs # Bad
         /\ wfs' = [wfs EXCEPT ![w] = st.fs]
         /\ wdone' = [wdone EXCEPT ![w] = st.done]
         /\ wsum' = [wsum EXCEPT ![w] = st.sum]
+        /\ wnf' = [wnf EXCEPT ![w] = st.nf]
+        /\ wcounts' = [wcounts EXCEPT ![w] = st.counts]
   /\ UNCHANGED <<opt, acc, dl, poison, overd, failed1009>>
 
 DevF16(w) == ("F16" \in Dev /\ poison[w]) \/ ("F10" \in Dev /\ overd[w])
 
+Bracket(st, tag) ==
+  CASE st = "idle" /\ tag = "mb" -> "msg"
+    [] st \in {"msg", "between"} /\ tag = "fb" -> "frame"
+    [] st = "frame" /\ tag = "fd" -> "frame"
+    [] st = "frame" /\ tag = "fe" -> "between"
+    [] st = "between" /\ tag = "me" -> "idle"
+    [] OTHER -> "bad"
 TDeliver ==
   /\ IsEvent("deliver")
   /\ LET w == Other(Ev.to) IN
@@ -139,31 +152,36 @@ TDeliver ==
        \E k \in (dl[w] + 1)..wdone[w] :
           /\ k = dl[w] + 1 \/ DevF16(w)
           /\ LET m == acc[w][k] IN m.id = Ev.id /\ m.bin = Ev.bin /\ m.len = Ev.len /\ Ev.same
+          \* the frame-level receive API saw exactly this message: onMessageBegin (FrameBegin FrameData* FrameEnd)+ onMessageEnd,
+          \* one bracket per data frame the sender wrote, and the data callbacks add up to the payload
+          /\ FoldLeft(Bracket, "idle", Ev.cb) = "idle" /\ Len(Ev.cb) > 0
+          /\ Ev.nfb = wcounts[w][k]
+          /\ Ev.fdsum = Ev.len
           /\ dl' = [dl EXCEPT ![w] = k]
-  /\ UNCHANGED <<opt, acc, wfs, wdone, wsum, krun, poison, overd, failed1009>>
+  /\ UNCHANGED <<opt, acc, wfs, wdone, wsum, krun, poison, overd, failed1009, wnf, wcounts>>
 
 \* the receiver may refuse an over-limit compressed message by failing the connection with 1009 (then nothing of that
 \* sender is delivered any more); it must never deliver it truncated
 TClosedLimit == /\ IsEvent("closed") /\ Ev.code = 1009
                 /\ \E w \in Who : overd[w] /\ failed1009' = [failed1009 EXCEPT ![w] = TRUE]
-                /\ UNCHANGED <<opt, acc, wfs, wdone, wsum, dl, krun, poison, overd>>
+                /\ UNCHANGED <<opt, acc, wfs, wdone, wsum, dl, krun, poison, overd, wnf, wcounts>>
 
 TEnd == /\ IsEvent("end")
         \* (a connection lost to a recorded deviation or failed with 1009 ends with unsent / undelivered messages)
         /\ \/ DevF16("C") \/ DevF16("S") \/ failed1009["C"] \/ failed1009["S"]
            \/ \A w \in Who : wdone[w] = Len(acc[w]) /\ wfs[w] = Ground /\ dl[w] = Len(acc[w])
-        /\ UNCHANGED <<opt, acc, wfs, wdone, wsum, dl, krun, poison, overd, failed1009>>
+        /\ UNCHANGED <<opt, acc, wfs, wdone, wsum, dl, krun, poison, overd, failed1009, wnf, wcounts>>
 
 \* an exception escaping data_received / the connection being closed is never part of a correct execution
 TDevEscape == /\ IsEvent("escape") /\ DevF16(Other(Ev.at))
-              /\ UNCHANGED <<opt, acc, wfs, wdone, wsum, dl, krun, poison, overd, failed1009>>
+              /\ UNCHANGED <<opt, acc, wfs, wdone, wsum, dl, krun, poison, overd, failed1009, wnf, wcounts>>
 TDevClosed == /\ IsEvent("closed") /\ (DevF16("C") \/ DevF16("S"))
-              /\ UNCHANGED <<opt, acc, wfs, wdone, wsum, dl, krun, poison, overd, failed1009>>
+              /\ UNCHANGED <<opt, acc, wfs, wdone, wsum, dl, krun, poison, overd, failed1009, wnf, wcounts>>
 TDevSend == /\ IsEvent("send") /\ Ev.exc = "Disconnected" /\ (DevF16("C") \/ DevF16("S"))   \* the connection was lost to the deviation
-            /\ UNCHANGED <<opt, acc, wfs, wdone, wsum, dl, krun, poison, overd, failed1009>>
+            /\ UNCHANGED <<opt, acc, wfs, wdone, wsum, dl, krun, poison, overd, failed1009, wnf, wcounts>>
 TDevDeliver == /\ IsEvent("deliver") /\ DevF16(Other(Ev.to)) /\ ~Ev.same
                /\ dl' = [dl EXCEPT ![Other(Ev.to)] = IF @ < wdone[Other(Ev.to)] THEN @ + 1 ELSE @]
-               /\ UNCHANGED <<opt, acc, wfs, wdone, wsum, krun, poison, overd, failed1009>>
+               /\ UNCHANGED <<opt, acc, wfs, wdone, wsum, krun, poison, overd, failed1009, wnf, wcounts>>
 
 TNext == (TOpen \/ TSend \/ TWire \/ TDeliver \/ TEnd \/ TClosedLimit \/ TDevEscape \/ TDevClosed \/ TDevDeliver \/ TDevSend) /\ UNCHANGED vars
 TraceSpec == TInit /\ Init /\ [][TNext]_<<tvars, vars>>
